@@ -17,7 +17,7 @@ class Mismatch(Exception):
 
 
 class Director:
-  def __init__(self, visible, timeout=5.0):
+  def __init__(self, visible, timeout=20.0):
     """visible(tid, target, op) -> bool"""
     self.visible = visible
     self.cv = threading.Condition()
